@@ -176,7 +176,7 @@ struct ilup {
                 for(ptrdiff_t ja = a_beg, ea = a_end, jp = p_beg, ep = p_end; ja < ea; ++ja) {
                     ptrdiff_t ca = A.col[ja];
                     while(jp < ep && P->col[jp] < ca) ++jp;
-                    if (P->col[jp] == ca) P->val[jp] = A.val[ja];
+                    if (jp < ep && P->col[jp] == ca) P->val[jp] = A.val[ja];
                 }
             }
 
